@@ -230,6 +230,8 @@ void FsDropInService::processDropInAdd(const std::string& file) {
   std::ifstream dropin_file(drop_in_dir_ + '/' + file, std::ios::in);
   if (!dropin_file.is_open()) {
     OLOG << "Could not open drop in config=" << file;
+    // Whatever an earlier version of this file injected is stale now
+    scheduleDropInRemove(file);
     return;
   }
   std::stringstream buf;
@@ -241,17 +243,20 @@ void FsDropInService::processDropInAdd(const std::string& file) {
   } catch (const std::exception& e) {
     OLOG << "Caught: " << e.what();
     OLOG << "Failed to inject drop in config into engine";
+    scheduleDropInRemove(file);
     return;
   }
   if (!dropin_root) {
     OLOG << "Could not parse drop in config=" << file;
     OLOG << "Failed to inject drop in config into engine";
+    scheduleDropInRemove(file);
     return;
   }
 
   if (!scheduleDropInAdd(file, *dropin_root)) {
     OLOG << "Could not compile drop in config";
     OLOG << "Failed to inject drop in config into engine";
+    scheduleDropInRemove(file);
   }
 }
 
